@@ -214,7 +214,17 @@ impl Monitor for PayMonitor {
 						}
 						v.rep.count("c02_f5_durability_order_evaluations");
 						let ucid = w.chans[up.chan].chan_id();
-						let ok = self.dur.get(&(*node, ucid)).and_then(|d| d.preimage.get(&dn.hash).map(|ids| ids.iter().any(|id| !d.incomplete.contains(id)))).unwrap_or(false);
+						let mut ok = self.dur.get(&(*node, ucid)).and_then(|d| d.preimage.get(&dn.hash).map(|ids| ids.iter().any(|id| !d.incomplete.contains(id)))).unwrap_or(false);
+						if !ok {
+							// the pairing may have picked an indistinguishable twin (same hash, amount and expiry on another
+							// channel from the same peer): the library knows which upstream HTLC it forwarded
+							for t in self.hs.iter().filter(|t| t.to == up.to && t.from == up.from && (t.chan, t.id) != (up.chan, up.id) && t.hash == up.hash && t.amt == up.amt && t.cltv == up.cltv) {
+								let tcid = w.chans[t.chan].chan_id();
+								if self.dur.get(&(*node, tcid)).and_then(|d| d.preimage.get(&dn.hash).map(|ids| ids.iter().any(|id| !d.incomplete.contains(id)))).unwrap_or(false) {
+									ok = true;
+								}
+							}
+						}
 						if !ok {
 							let handed = self.dur.get(&(*node, ucid)).and_then(|d| d.preimage.get(&dn.hash).cloned());
 							v.violation("C02", "F5-durability-order", "the monitor update that makes a downstream fulfilment irrevocable was handed out before the upstream preimage update was durable", format!("node{}: downstream chan {} htlc {} (update {}), upstream chan {} preimage updates handed {:?}, none complete", node, dn.chan, dn.id, update_id, up.chan, handed));
